@@ -665,8 +665,7 @@ def _parse_container(container_type: type[Container]) -> Callable[[str], list[An
         logger.debug(f"Parsed literal: {literal}")
         if not isinstance(literal, (list, tuple)):
             # we were passed a single-element container, like "--some_list 1", which should give [1].
-            # We therefore return the literal itself, and argparse will append it.
-            return T(literal)
+            return factory([T(literal)])
         else:
             container = literal
             values = factory(T(v) for v in container)
